@@ -12,12 +12,12 @@ COMMON_ASSUMPTIONS = [
 PROPS = {}
 
 PROPS['C20'] = {
-    'modules': ['c20', ('c10', ['R10.4']), ('siblings', ['SB2'])],
+    'modules': ['c20', ('c10', ['R10.4']), ('siblings', ['SB2']), ('c08', ['X1'])],
     'level': 'other',
     'quick_configs': ['default'],
     'thorough_configs': ['default', 'noalloc', 'nounicode', 'nostd'],
     'controls': [],
-    'floors': {'default': {'W1': 60, 'W1.bytes': 1, 'W2': 1, 'R10.4.hint': 1, 'SB2': 1, 'W4': 2}},
+    'floors': {'default': {'W1': 60, 'W1.bytes': 1, 'W2': 1, 'R10.4.hint': 1, 'SB2': 1, 'W4': 2, 'W2c': 1, 'X1': 3}},
     'rule_text': 'one obligation per overflow/division/shift site of the sector/cluster/offset arithmetic '
                  '(boot_sector.rs geometry helpers, fs.rs offset_from_*/DiskSlice, table.rs get/set/find_free/alloc): '
                  'discharged by the interval analysis under validated-BPB invariants or a reasoned table entry; the '
@@ -41,7 +41,7 @@ PROPS['C20'] = {
 NOT_APPLICABLE = {}
 
 PROPS['C02'] = {
-    'modules': ['c02', ('c18', ['R18.3']), ('c05', ['A5.8']), ('c03', ['R3.6', 'R3.10']), ('c11', ['R11.4'])],
+    'modules': ['c02', ('c18', ['R18.3']), ('c05', ['A5.8']), ('c03', ['R3.6', 'R3.10', 'R3.11']), ('c11', ['R11.4'])],
     'level': 'other',
     'quick_configs': ['default'],
     'thorough_configs': ALL,
@@ -124,7 +124,7 @@ PROPS['C09'] = {
     'quick_configs': ['default'],
     'thorough_configs': ALL,
     'controls': ['R9.1', 'R9.2', 'R9.3', 'R9.4', 'R9.5', 'R9.6', 'R9.7', 'R9.8'],
-    'floors': {'default': {'R9.1': 250, 'R9.6': 14}},
+    'floors': {'default': {'R9.1': 250, 'R9.6': 14, 'R9.9': 2}},
     'rule_text': 'one obligation per call site in fatfs whose result type carries a device-capable error and whose '
                  'callee may reach the device (mono call graph), per closure parameter of such a type, and per RefCell '
                  'borrow site; non-trivial = needed a path exploration of the error value\'s fate (not a direct return)',
@@ -205,12 +205,12 @@ PROPS['C14'] = {
 }
 
 PROPS['C12'] = {
-    'modules': ['c12'],
+    'modules': ['c12', ('c04', ['K1b'])],
     'level': 'other',
     'quick_configs': ['default'],
     'thorough_configs': ALL,
     'controls': ['Q1'],
-    'floors': {'default': {'Q1': 6, 'Q1.c': 2, 'Q6': 1}},
+    'floors': {'default': {'Q1': 6, 'Q1.c': 2, 'Q6': 1, 'K1b': 1}},
     'rule_text': 'one obligation per raw device-write site (a call made while a guard of the `disk` cell is alive that '
                  'reaches a device write), per structural condition of the FS adapter, the unmount sequence, the '
                  'status-byte latch, the two status offsets and the status query; non-trivial = decided by dominance / '
@@ -237,7 +237,7 @@ PROPS['C12'] = {
 }
 
 PROPS['C05'] = {
-    'modules': ['c05', ('c03', ['R3.8', 'R3.7b']), ('c11', ['R11.4'])],
+    'modules': ['c05', ('c03', ['R3.8', 'R3.7b', 'R3.11']), ('c11', ['R11.4'])],
     'level': 'other',
     'quick_configs': ['default'],
     'thorough_configs': ALL,
@@ -293,12 +293,12 @@ PROPS['C08'] = {
 }
 
 PROPS['C15'] = {
-    'modules': ['c15'],
+    'modules': ['c15', ('c17', ['T2'])],
     'level': 'other',
     'quick_configs': ['default', 'noalloc'],
     'thorough_configs': ALL,
     'controls': ['N1', 'N8'],
-    'floors': {'default': {'N1': 6, 'N3.chars': 1, 'N3.len': 1, 'N6': 1, 'N5': 2, 'N2': 60, 'N5b': 1, 'N7': 1}},
+    'floors': {'default': {'N1': 6, 'N3.chars': 1, 'N3.len': 1, 'N6': 1, 'N5': 2, 'N2': 60, 'N5b': 1, 'N7': 1, 'N5c': 1}},
     'rule_text': 'obligations: one per instance of create_file/create_dir/rename (two-state protocol: no unguarded device '
                  'write before a name validator\'s Ok edge), the accepted-character table over all 0x110000 code points, '
                  'the length table over all usize lengths, the accepted long-name sequence numbers, the buffer capacity '
@@ -324,12 +324,12 @@ PROPS['C15'] = {
 }
 
 PROPS['C01'] = {
-    'modules': ['c15', 'c01', ('c03', ['R3.7', 'R3.7b'])],
+    'modules': ['c15', 'c01', ('c03', ['R3.7', 'R3.7b']), ('c02', ['B5'])],
     'level': 'other',
     'quick_configs': ['default'],
     'thorough_configs': ALL,
     'controls': ['N1', 'N8'],
-    'floors': {'default': {'N1': 6, 'R1.2': 6, 'R1.3': 1, 'R1.5': 6, 'R3.7': 1, 'R1.7': 120, 'R1.8': 1, 'N5b': 1}},
+    'floors': {'default': {'N1': 6, 'R1.2': 6, 'R1.3': 1, 'R1.5': 6, 'R3.7': 1, 'R1.7': 120, 'R1.8': 1, 'N5b': 1, 'R1.9': 1}},
     'rule_text': 'obligations: N1 instances (shared with C15), one per mutation site of create_file/create_dir/'
                  'rename_internal (must lie on the `name is free` arm), the emptiness guard of remove, the '
                  'publish-before-delete order of rename, and one per intermediate path lookup; non-trivial = dominance or '
@@ -356,7 +356,7 @@ PROPS['C07'] = {
     'quick_configs': ['default'],
     'thorough_configs': ALL,
     'controls': [],
-    'floors': {'default': {'M1': 25, 'M2a': 8, 'M2b': 13, 'M2c': 2, 'M2d': 11, 'SB1': 1, 'SB2': 1}},
+    'floors': {'default': {'M1': 25, 'M2a': 8, 'M2b': 13, 'M2c': 2, 'M2d': 11, 'SB1': 1, 'SB2': 1, 'M2f': 1}},
     'rule_text': 'one obligation per panic site (MIR Assert or panicking library call) in a function reachable from '
                  'FileSystem::new, evaluated in every calling context by interval analysis; one per geometry condition '
                  'of the statement (range established at the Ok exit, rejecting comparison, width-consistency table, '
@@ -385,12 +385,12 @@ PROPS['C07'] = {
 }
 
 PROPS['C17'] = {
-    'modules': ['c17'],
+    'modules': ['c17', ('c19', ['R19.3'])],
     'level': 'other',
     'quick_configs': ['default', 'noalloc'],
     'thorough_configs': ALL,
     'controls': [],
-    'floors': {'default': {'T1': 100, 'T2': 1, 'T3.index': 1, 'T3b': 1, 'T4': 1}, 'noalloc': {'T1': 100, 'T2n': 1}},
+    'floors': {'default': {'T1': 100, 'T2': 1, 'T3.index': 1, 'T3b': 1, 'T4': 1, 'T3.start': 1, 'T3.cont': 1}, 'noalloc': {'T1': 100, 'T2n': 1}},
     'rule_text': 'one obligation per panic site (MIR Assert / panicking library call) in a function reachable from '
                  'Dir::iter, DirIter::next, open_*, every DirEntry accessor and the handle destructors, evaluated in '
                  'every calling context, in the alloc and in the fixed-buffer build; plus the length bound, the fallback '
@@ -420,7 +420,7 @@ PROPS['C16'] = {
     'quick_configs': ['default'],
     'thorough_configs': ALL,
     'controls': [],
-    'floors': {'default': {'S1': 1, 'S2.checksum': 1, 'S3.rescan': 1, 'S3.plain': 1, 'S3.chk': 1}},
+    'floors': {'default': {'S1': 1, 'S2.checksum': 1, 'S3.rescan': 1, 'S3.plain': 1, 'S3.chk': 1, 'S3.all': 1}},
     'rule_text': 'obligations: the character-mapping decision table over all 0x110000 code points, the checksum data '
                  'path (three links), the rescan-per-retry condition, the bookkeeping call and the 8-case table of the '
                  'plain-form decision; non-trivial = partition walk, path query or dependence query',
@@ -446,7 +446,7 @@ PROPS['C10'] = {
     'quick_configs': ['default'],
     'thorough_configs': ALL,
     'controls': [],
-    'floors': {'default': {'R10.1': 20, 'R10.2': 1, 'R10.3': 1, 'R10.4.hint': 1}},
+    'floors': {'default': {'R10.1': 20, 'R10.2': 1, 'R10.3': 1, 'R10.4.hint': 1, 'X4': 3}},
     'rule_text': 'obligations: one per monomorphic instance of a FAT writer (stream type must be the mirrored DiskSlice), '
                  'the two arms of the slice geometry, the two flag decoders, the replicated-write loop, the two '
                  'read-modify-write sites, format_fat and the allocator\'s hint clamp',
@@ -469,12 +469,12 @@ PROPS['C10'] = {
 }
 
 PROPS['C03'] = {
-    'modules': ['c03', ('c05', ['A5.8']), ('c10', ['R10.4']), ('c15', ['N7']), ('c04', ['K5']), ('c11', ['R11.4'])],
+    'modules': ['c03', ('c05', ['A5.8']), ('c10', ['R10.4']), ('c15', ['N7']), ('c04', ['K5']), ('c11', ['R11.4']), ('retry', ['R9.9'])],
     'level': 'other',
     'quick_configs': ['default'],
     'thorough_configs': ALL,
     'controls': [],
-    'floors': {'default': {'R3.1': 1, 'R3.2': 1, 'R3.3': 1, 'R3.7': 1, 'R3.8': 1, 'R3.9': 1, 'R10.4.hint': 1, 'N7': 1}},
+    'floors': {'default': {'R3.1': 1, 'R3.2': 1, 'R3.3': 1, 'R3.7': 1, 'R3.8': 1, 'R3.9': 1, 'R10.4.hint': 1, 'N7': 1, 'R3.10': 1, 'R3.11': 1, 'R9.9': 2, 'R11.4': 2}},
     'rule_text': 'obligations: zero-fill of directory clusters (length, guard, position, the two callers\' arguments), '
                  'dot entries, release-on-failure of the unpublished allocation, `..` rewrite on move, first-cluster reset '
                  'at offset 0, the contiguous-run counter of the free-slot search, the truncate order, plus the reclaim '
@@ -500,7 +500,7 @@ PROPS['C04'] = {
     'quick_configs': ['default'],
     'thorough_configs': ALL,
     'controls': ['P3'],
-    'floors': {'default': {'K1': 10, 'K3': 2, 'K4': 1, 'FT1': 1, 'K5': 5}},
+    'floors': {'default': {'K1': 10, 'K3': 2, 'K4': 1, 'FT1': 1, 'K5': 5, 'K1b': 1}},
     'rule_text': 'obligations: 5 on-disk layouts x {encoder, decoder} compared field by field (78 specification fields) '
                  'with the Microsoft FAT specification table; entry-position and extent provenance; the FAT-width table; '
                  'the write-back must-calls shared with C14',
@@ -528,7 +528,7 @@ PROPS['C11'] = {
     'quick_configs': ['default'],
     'thorough_configs': ALL,
     'controls': ['R11.1', 'R11.2'],
-    'floors': {'default': {'R11.1': 6, 'R11.2.adapter': 1, 'R11.3': 4, 'R10.4.hint': 1, 'R3.8': 1, 'R10.2': 1}},
+    'floors': {'default': {'R11.1': 6, 'R11.2.adapter': 1, 'R11.3': 4, 'R10.4.hint': 1, 'R3.8': 1, 'R10.2': 1, 'R11.4': 2}},
     'rule_text': 'one obligation per raw device-write site (closed set; each must be dominated by a successful seek whose '
                  'offset provenance is in an allowed class), per clipping site (File::write, DiskSlice read/write/seek), '
                  'plus the allocator bounds (hint clamp, padding entries; C10 rules) and the truncate order (C03 rule)',
@@ -555,7 +555,7 @@ PROPS['C18'] = {
     'quick_configs': ['default'],
     'thorough_configs': ALL,
     'controls': [],
-    'floors': {'default': {'R18.1': 3, 'R18.2': 6, 'R18.4': 1, 'R18.5': 3, 'R18.6': 4, 'R18.3': 1, 'R18.7': 2}},
+    'floors': {'default': {'R18.1': 3, 'R18.2': 6, 'R18.4': 1, 'R18.5': 3, 'R18.6': 4, 'R18.3': 1, 'R18.7': 2, 'R18.5b': 3}},
     'rule_text': 'obligations: one per clock read (must go through options.time_provider), per timestamp setter (closed '
                  'caller set from the mono call graph), the access-date option guard, the stamp-on-write must-call, the '
                  'rename-keeps-body shape and one per editor setter (its unchanged-test must cover every stored field)',
